@@ -180,7 +180,7 @@ func c19Direct(c *RunCtx) {
 // reset throttles.
 func c19System(c *RunCtx) {
 	idx := 0
-	for _, kind := range []string{"reference", "reset", "resetaccess", "resetbusy"} {
+	for _, kind := range []string{"reference", "reset", "resetaccess", "resetbusy", "resetunsub", "resetclose"} {
 		for _, limit := range []int{0, 1, 2, 3, 8} {
 			for _, fan := range []int{1, 2, 3, 5, 9, 14} {
 				for _, order := range []string{"oldest", "newest", "random"} {
@@ -309,6 +309,79 @@ func c19Case(c *RunCtx, kind string, limit, fan int, order string, conns int, se
 		return false
 	}
 	switch kind {
+	case "resetunsub", "resetclose":
+		// direct subscriptions on every child; while the throttled re-checks
+		// are outstanding their subscriptions are released (unsubscribe or
+		// disconnect); the late answers must still free the slots
+		governed = func(r *BusReq) bool { return false }
+		for i := 0; i < fan; i++ {
+			s.Req(cls[0], fmt.Sprintf("subscribe.t.c%d", i), nil)
+		}
+		if conns > 1 {
+			for i := 0; i < fan; i++ {
+				s.Req(cls[1], fmt.Sprintf("subscribe.t.c%d", i), nil)
+			}
+		}
+		if !drain() {
+			return
+		}
+		n0 := g.Bus.NumReqs()
+		governed = func(r *BusReq) bool { return r.ID >= n0 && r.Kind == "access" }
+		watch()
+		w.SystemReset(nil, []string{"t.>"})
+		s.Quiesce()
+		first := g.Bus.Outstanding()
+		if kind == "resetunsub" {
+			for _, r := range first {
+				if r.Kind == "access" && r.CID == cls[0].CID {
+					s.Req(cls[0], "unsubscribe."+r.Name, nil)
+				}
+			}
+		} else {
+			cls[0].Close()
+		}
+		s.Quiesce()
+		if !drain() {
+			return
+		}
+		accesses := 0
+		seen := map[string]bool{}
+		for _, r := range g.Bus.Reqs()[n0:] {
+			if r.Kind == "access" {
+				accesses++
+				seen[r.CID+" "+r.Name] = true
+			}
+		}
+		// every direct subscription that still exists must have been re-checked
+		want := 0
+		for ci, cl := range cls {
+			if ci > 1 || (ci == 0 && kind == "resetclose") {
+				continue
+			}
+			for i := 0; i < fan; i++ {
+				name := fmt.Sprintf("t.c%d", i)
+				unsubbed := false
+				if ci == 0 && kind == "resetunsub" {
+					for _, r := range first {
+						if r.Kind == "access" && r.CID == cl.CID && r.Name == name {
+							unsubbed = true
+						}
+					}
+				}
+				if unsubbed {
+					continue
+				}
+				want++
+				if !seen[cl.CID+" "+name] {
+					fail("throttleStall", "direct subscription %s of connection %d was never re-checked after the reset although everything was answered (a throttle slot leaked)", name, ci)
+					return
+				}
+			}
+		}
+		_ = want
+		if limit > 0 && int(maxOut.Load()) > limit {
+			fail("boundExceeded", "%d governed requests outstanding at once, limit %d", maxOut.Load(), limit)
+		}
 	case "reference":
 		governed = func(r *BusReq) bool { return r.Kind == "get" }
 		watch()
